@@ -174,7 +174,7 @@ def do_detect_copy(sid, props):
     meta = json.load(open(os.path.join(d, "meta.json")))
     if not props:
         props = [meta["property"]]
-    work = "/tmp/tzrs-seedreg"
+    work = os.environ.get("SEEDREG_DIR", "/tmp/tzrs-seedreg")
     copy = os.path.join(work, "repo")
     shutil.rmtree(copy, ignore_errors=True)
     os.makedirs(copy)
